@@ -136,36 +136,36 @@ Qed.
 Theorem parse_render sp m : rq_wf sp m -> rq_parse (rq_render sp) = Some (rq_expected sp m).
 Proof.
   intros (H0 & H1 & H2 & H3 & Hn & Hex & Hb & Hm).
-  assert (Hm' : mk_rel (s_marker sp) m) by exact Hm.
+  assert (Hm' : mk_rel (rs_marker sp) m) by exact Hm.
   unfold rq_parse, rq_render.
-  change (match s_marker sp with None => [] | Some mt => 59 :: mt end) with (mk_text (s_marker sp)).
-  destruct (s_extras sp) as [[we items]|] eqn:Eex.
+  change (match rs_marker sp with None => [] | Some mt => 59 :: mt end) with (mk_text (rs_marker sp)).
+  destruct (rs_extras sp) as [[we items]|] eqn:Eex.
   - destruct Hex as [Hwe Hitems].
     rewrite skip_ws_app by (auto; apply valid_ident_head; auto).
     rewrite <- ?app_assoc.
     rewrite rq_ident_ok; auto.
     2:{ apply blank_nonword; auto. }
-    2:{ apply (blank_head_cases (s_w1 sp) _ (fun c => rq_is_ident c = false)); auto; reflexivity. }
+    2:{ apply (blank_head_cases (rs_w1 sp) _ (fun c => rq_is_ident c = false)); auto; reflexivity. }
     cbn [app]. rewrite skip_ws_app by (auto; reflexivity).
     rewrite <- ?app_assoc. cbn [app].
     rewrite (extras_ok _ we items _ Hwe).
     2:{ eapply Forall_impl; [|exact Hitems]. intros i Hi. exact Hi. }
-    destruct (details_ok (s_body sp) (s_marker sp) m (s_w3 sp) (Some 93) (s_w2 sp) H2 H3 Hb Hm') as (_ & _ & q & E).
+    destruct (details_ok (rs_body sp) (rs_marker sp) m (rs_w3 sp) (Some 93) (rs_w2 sp) H2 H3 Hb Hm') as (_ & _ & q & E).
     cbv zeta in E. unfold MText.str, MText.char in *. rewrite E. rewrite at_end_nil.
     unfold rq_expected, rq_sp_extras, rq_sp_url, rq_sp_clauses. rewrite Eex.
-    destruct (s_body sp); reflexivity.
+    destruct (rs_body sp); reflexivity.
   - rewrite skip_ws_app by (auto; apply valid_ident_head; auto).
     rewrite <- ?app_assoc. cbn [app].
-    destruct (details_ok (s_body sp) (s_marker sp) m (s_w3 sp) (last_opt (last_opt None (s_w0 sp)) (s_name sp)) (s_w1 sp ++ s_w2 sp)
+    destruct (details_ok (rs_body sp) (rs_marker sp) m (rs_w3 sp) (last_opt (last_opt None (rs_w0 sp)) (rs_name sp)) (rs_w1 sp ++ rs_w2 sp)
                 (blank_app _ _ H1 H2) H3 Hb Hm') as (N91 & Sid & q & E).
     cbv zeta in N91, Sid, E. rewrite <- ?app_assoc in N91, Sid, E.
-    assert (NI : nihead (s_w1 sp ++ s_w2 sp ++ rq_body_text (s_body sp) ++ s_w3 sp ++ mk_text (s_marker sp))).
-    { apply (blank_head_cases (s_w1 sp) _ (fun c => rq_is_ident c = false)); auto.
-      apply (blank_head_cases (s_w2 sp) _ (fun c => rq_is_ident c = false)); auto.
-      destruct (s_body sp) as [[wp|] items|wu u]; cbn [rq_body_text app]; auto.
+    assert (NI : nihead (rs_w1 sp ++ rs_w2 sp ++ rq_body_text (rs_body sp) ++ rs_w3 sp ++ mk_text (rs_marker sp))).
+    { apply (blank_head_cases (rs_w1 sp) _ (fun c => rq_is_ident c = false)); auto.
+      apply (blank_head_cases (rs_w2 sp) _ (fun c => rq_is_ident c = false)); auto.
+      destruct (rs_body sp) as [[wp|] items|wu u]; cbn [rq_body_text app]; auto.
       destruct items as [|[[a c] b] more].
       + unfold rq_items_text. cbn [map rq_join app].
-        apply (blank_head_cases (s_w3 sp) _ (fun c => rq_is_ident c = false)); auto. destruct (s_marker sp); cbn; auto.
+        apply (blank_head_cases (rs_w3 sp) _ (fun c => rq_is_ident c = false)); auto. destruct (rs_marker sp); cbn; auto.
       + rewrite items_text_cons. cbn [rq_wf_body] in Hb. destruct Hb as (_ & Hall & _).
         inversion Hall as [|? ? [Hi _] _]; subst. apply item_blank_split in Hi as [Ha _]. rewrite <- ?app_assoc.
         apply (blank_head_cases a _ (fun c => rq_is_ident c = false)); auto.
@@ -175,6 +175,6 @@ Proof.
     unfold MText.str, MText.char in *.
     rewrite (extras_absent _ N91). rewrite Sid. rewrite E. rewrite at_end_nil.
     unfold rq_expected, rq_sp_extras, rq_sp_url, rq_sp_clauses. rewrite Eex.
-    destruct (s_body sp); reflexivity.
+    destruct (rs_body sp); reflexivity.
 Qed.
 Print Assumptions parse_render.
